@@ -294,4 +294,97 @@ Proof.
   now rewrite Q1, Q2, Q3, Q4, Q5.
 Qed.
 
+
+(* ---------------------------------------------------------------------------------------- *)
+(* the cycle condition as the property words it                                             *)
+(* ---------------------------------------------------------------------------------------- *)
+(* x refers to y (anywhere in its body); RefReach = reflexive-transitive closure *)
+Definition refers (x y : name) : Prop := exists b, lookup G x = Some b /\ In y (idents b).
+Inductive RefReach : name -> name -> Prop :=
+| RR0 x : RefReach x x
+| RRS x m y : refers x m -> RefReach m y -> RefReach x y.
+
+Lemma Ung_idents e y : Ung e y -> In y (idents e).
+Proof. induction 1; cbn [idents]; auto; try (apply in_or_app; auto); now left. Qed.
+
+Lemma UPath_RefReach x y : UPath x y -> RefReach x y.
+Proof.
+  induction 1.
+  - destruct H as (b & Hb & Hu). apply (RRS v y y); [exists b; split; [exact Hb|now apply Ung_idents]|apply RR0].
+  - destruct H as (b & Hb & Hu). apply (RRS v m y); [exists b; split; [exact Hb|now apply Ung_idents]|exact IHUPath].
+Qed.
+
+(* "every path from a rule back to itself begins by matching at least one character": a reference
+   that can lead back to the rule is never unguarded *)
+Definition every_cycle_starts_with_char : Prop := forall r x, uedge r x -> ~ RefReach x r.
+
+Lemma cycles_text : every_cycle_starts_with_char -> forall x, ~ UPath x x.
+Proof.
+  intros H x Hp. inversion Hp; subst.
+  - apply (H x x H0). apply RR0.
+  - apply (H x m H0). now apply UPath_RefReach.
+Qed.
+
+(* ---------------------------------------------------------------------------------------- *)
+(* the model's fuel never runs out and no panic site is reached                              *)
+(* ---------------------------------------------------------------------------------------- *)
+Definition clean (e : verr) : Prop := e <> VFuel /\ e <> VPanic.
+
+Lemma Forall_flat_map {A B} (P : B -> Prop) (f : A -> list B) l : (forall x, In x l -> Forall P (f x)) -> Forall P (flat_map f l).
+Proof.
+  induction l as [|y l IH]; cbn; intros H; [constructor|]. apply Forall_app. split; [apply H; now left|apply IH; intros x Hx; apply H; now right].
+Qed.
+Lemma clean1 e : clean e -> Forall clean [e].
+Proof. intros H. repeat constructor; apply H. Qed.
+
+Lemma nf_np_errors_clean x e1 e2 : clean e1 -> clean e2 -> Forall clean (nf_np_errors G x e1 e2).
+Proof.
+  intros A B. unfold nf_np_errors.
+  pose proof (nf_vfuel_nil G x). pose proof (np_vfuel_nil G x).
+  destruct (nf G (vfuel G) [] x) as [[|]|]; try congruence; [now apply clean1|].
+  destruct (np G (vfuel G) [] x) as [[|]|]; try congruence; [now apply clean1|constructor].
+Qed.
+
+Theorem validate_clean : Forall clean (validate kw builtin cfg G).
+Proof.
+  assert (C : forall e, (match e with VFuel | VPanic => False | _ => True end) -> clean e) by (intros []; cbn; intros []; split; discriminate).
+  assert (HP : Forall clean (validate_pairs kw builtin G)).
+  { unfold validate_pairs, validate_pest_keywords, validate_already_defined, validate_undefined.
+    apply Forall_app; split; [|apply Forall_app; split].
+    - apply Forall_flat_map. intros n _. destruct (kw n); [apply clean1, C; exact I|constructor].
+    - generalize (@nil name) as seen. induction (defs G) as [|n l IH]; intros seen; cbn [already_defined]; [constructor|].
+      destruct (mem n seen); [constructor; [apply C; exact I|apply IH]|apply IH].
+    - apply Forall_flat_map. intros r _. apply Forall_flat_map. intros n _. destruct (_ || _); [constructor|apply clean1, C; exact I]. }
+  assert (HR : Forall clean (reader_errors G)).
+  { unfold reader_errors. destruct (existsb _ G); [apply clean1, C; exact I|constructor]. }
+  assert (HV : Forall clean (validate_ast builtin cfg G)).
+  { unfold validate_ast. repeat (apply Forall_app; split).
+    - apply Forall_flat_map. intros r _. apply Forall_flat_map. intros node _.
+      destruct node; cbn [rep_node_errors]; try constructor; apply nf_np_errors_clean; apply C; exact I.
+    - apply Forall_flat_map. intros r _. apply Forall_flat_map. intros node _.
+      destruct node; cbn [cho_node_errors]; try constructor.
+      match goal with |- Forall _ (match nf G (vfuel G) [] ?a with _ => _ end) =>
+        pose proof (nf_vfuel_nil G a); destruct (nf G (vfuel G) [] a) as [[|]|]; try congruence; [apply clean1, C; exact I|constructor] end.
+    - apply Forall_flat_map. intros r _. destruct (is_ws_or_comment (rname r)); [|constructor].
+      apply nf_np_errors_clean; apply C; exact I.
+    - apply Forall_flat_map. intros r _. unfold check_root.
+      destruct (lookup G (rname r)) as [b|] eqn:El; [|constructor].
+      assert (Hd : In (rname r) (defs G)) by (eapply lookup_defs; eauto).
+      destruct (check_total (vfuel G) (rname r) [] b) as [F1 F2].
+      { repeat constructor. intros []. } { intros z [<-|[]]; auto. } { unfold vfuel. cbn. lia. }
+      destruct (check cfg G (vfuel G) [rname r] b); try congruence; [constructor|apply clean1, C; exact I].
+    - apply Forall_flat_map. intros r _. apply Forall_flat_map. intros node _.
+      destruct node; cbn [tag_node_errors]; try constructor.
+      induction node; cbn [check_silent_builtin]; try constructor; auto.
+      destruct (find_rule G n) as [r0|]; [destruct (rty r0)|]; try destruct (builtin n); try constructor; try (apply C; exact I); constructor. }
+  unfold validate. destruct (validate_pairs kw builtin G); [destruct (reader_errors G); auto|auto].
+Qed.
+
+(* the model's fuel never runs out and no panic site of validator.rs is reached *)
+Corollary validate_total : ~ In VFuel (validate kw builtin cfg G) /\ ~ In VPanic (validate kw builtin cfg G).
+Proof.
+  pose proof validate_clean as H. rewrite Forall_forall in H.
+  split; intros Hin; destruct (H _ Hin); congruence.
+Qed.
+
 End Accept.
